@@ -121,8 +121,48 @@ func runRIO(args []string) error {
 				tr.emit(M{"t": "w", "op": "open", "rec": "", "j": 0, "off": 0, "size": 0, "target": 0, "err": err.Error()})
 				return nil, false, nil
 			}
+			// a companion writer (same buffer size and compression) is open next to the writer under test and gets one record per step: two files written
+			// side by side must not see each other's bytes (whatever earlier writers - each closed twice - handed back)
+			var comp recordio.WriterI
+			ncomp := 0
+			cpath := path + ".companion"
+			if !c.DirectIO {
+				copts := []recordio.FileWriterOption{recordio.Path(cpath), recordio.CompressionType(c.Comp)}
+				if c.WBuf > 0 {
+					copts = append(copts, recordio.BufferSizeBytes(c.WBuf))
+				}
+				if cw, err := recordio.NewFileWriter(copts...); err == nil && cw.Open() == nil {
+					comp = cw
+				}
+			}
+			defer func() {
+				if comp == nil {
+					return
+				}
+				comp.Close()
+				comp.Close()
+				ok := true
+				got := readPlain(cpath)
+				if len(got) != ncomp {
+					ok = false
+				}
+				for i := range got {
+					if i < ncomp && got[i] != fmt.Sprintf("companion-%06d", i) {
+						ok = false
+					}
+				}
+				if !ok {
+					tr.emit(M{"t": "w", "op": "companion", "rec": "", "j": 0, "off": 0, "size": 0, "target": 0, "err": fmt.Sprintf("companion file holds %d records (first %.40q), %d written", len(got), append(got, "")[0], ncomp)})
+				}
+				os.Remove(cpath)
+			}()
 			closed := false
 			for _, op := range c.Ops {
+				if comp != nil {
+					if _, err := comp.Write([]byte(fmt.Sprintf("companion-%06d", ncomp))); err == nil {
+						ncomp++
+					}
+				}
 				switch op.Op {
 				case "write", "writesync":
 					var off uint64
@@ -168,6 +208,7 @@ func runRIO(args []string) error {
 			if !closed {
 				w.Close()
 			}
+			w.Close() // closed twice (defer + explicit)
 			return offs, true, nil
 
 		}
@@ -488,4 +529,25 @@ func writeLegacy(tr *traceWriter, path string, c rioCase, rb func(string) []byte
 	}
 	tr.emit(M{"t": "w", "op": "close", "rec": "", "j": 0, "off": 0, "size": len(file), "target": 0, "err": "", "dio": false})
 	return offs, nil
+}
+
+// readPlain reads every record of a file as a string (empty slice when the file cannot be read)
+func readPlain(path string) []string {
+	out := []string{}
+	r, err := recordio.NewFileReaderWithPath(path)
+	if err != nil {
+		return out
+	}
+	if err := r.Open(); err != nil {
+		r.Close()
+		return out
+	}
+	defer r.Close()
+	for {
+		b, err := r.ReadNext()
+		if err != nil {
+			return out
+		}
+		out = append(out, string(b))
+	}
 }
